@@ -72,6 +72,9 @@ ExperimentOps(T) ==
        \cup {[op |-> "SetProp", p |-> p, kind |-> "rp", pname |-> "Capacities", val |-> [core |-> "i:2"]] : p \in Nodes(T)}
        \cup {[op |-> "SetProp", p |-> p, kind |-> "sp", pname |-> "Site", val |-> "S2"] : p \in Nodes(T) \cup TopSvcs(T)}
        \cup {[op |-> "UnsetProp", p |-> p, kind |-> "rp", pname |-> "Capacities"] : p \in Nodes(T)}
+       \cup {[op |-> "SetProps", p |-> p, bad |-> b,
+               items |-> << [kind |-> "rp", pname |-> "Capacities", val |-> [core |-> "i:3"]], [kind |-> "rp", pname |-> "Labels", val |-> [local_name |-> "s:x"]] >>] :
+                 p \in Nodes(T) \cup TopSvcs(T) \cup NodeSideIfs(T) \cup UNION {KidsOf(T, n, CO) : n \in Nodes(T)}, b \in {"none", "unknown", "type"}}
           ELSE {})
     \cup {[op |-> "Views"], [op |-> "Validate"]}
     \cup {[op |-> "HandleIfs", p |-> p] : p \in TopSvcs(T) \cup DedPorts(T)}
